@@ -30,7 +30,7 @@ RULE = ('a seeded history (files at any depth, multi-sector directories through 
         'modification vector)')
 BUDGET = {'quick': 40, 'thorough': 900}
 PROBES = ['modifications_checked', 'doomed_checked', 'target_hard_linked', 'target_has_joliet_name', 'target_has_udf_name', 'target_in_multi_sector_dir',
-          'target_deep', 'new_length_zero', 'new_length_exact_sectors', 'repeated_modification', 'rr_target', 'xa_image']
+          'target_deep', 'new_length_zero', 'new_length_exact_sectors', 'repeated_modification', 'rr_target', 'xa_image', 'object_reused_after_other_image']
 ASSUMPTIONS = ['volume descriptor sectors may be rewritten as a whole; only their space-size and modification-date bytes may differ',
                'the allowed set is computed by the independent decoders on the image before the call']
 SHRINK_LIST_KEYS = ['ops', 'mods']
@@ -84,6 +84,7 @@ def generate(seed, tier='quick'):
             op = {'op': 'modify', 'iso': p, 'blob': nb, 'len': old, 'kind': kind, 'expect': 'refuse'}
         mods.append(op)
     plan['mods'] = mods
+    plan['decoy'] = r.random() < 0.3
     return plan
 
 
@@ -205,6 +206,18 @@ def run_mods(ctx, plan, d, disk, h, w):
     accepted = 0
     ro_disk = disk
     iso = pm.PyCdlib()
+    if plan.get('decoy'):
+        # the object patched another image before (same names, other contents and every name looked up): whatever it
+        # remembers across close() would now send the writes to the places that image had
+        dd = d.decoy_of(disk)
+        if dd is not None:
+            try:
+                iso.open_fp(SimFile(dd, 'rb'))
+                d.touch_all_names(iso)
+                iso.close()
+                ctx.probes['object_reused_after_other_image'] += 1
+            except Exception:
+                iso = pm.PyCdlib()
     fp = SimFile(disk, 'r+b')
     try:
         iso.open_fp(fp)
